@@ -197,12 +197,83 @@ def l1_chunk(args):
     return n, nontriv, bad[:30], len(outcomes)
 
 
+# ------------------------------------------------------------------------------------------------ L1b: from full assignments
+PENALTIES = (0.5, 1.0, 3.0)
+
+
+def l1b_all(_):
+    """two inconsistent alignments of one read on two chromosomes, every pair of penalties, every flag pair without two primaries,
+       both presentation orders; the records the resolver sees are made from full ReadAssignment objects by the two routes the
+       pipeline uses: BasicReadAssignment(ra) (--high_memory) and the abridged reader of the saved stream (default)"""
+    import io
+    import src.isoform_assignment as IA
+    from src.polya_finder import PolyAInfo
+    from src.multimap_resolver import MultimapResolver, MultimapResolvingStrategy
+    resolver = MultimapResolver(MultimapResolvingStrategy.take_best)
+    bad = []
+    n = 0
+
+    def full(aid, chrom, gene, tids, pen, sec):
+        ev = IA.MatchEvent(IA.MatchEventSubtype.intron_retention, (1, 1), (0, 0), 0)
+        ms = [IA.IsoformMatch(IA.MatchClassification.novel_in_catalog, gene, t, [ev], "+", pen) for t in tids]
+        t = IA.ReadAssignmentType.inconsistent if len(tids) == 1 else IA.ReadAssignmentType.inconsistent_ambiguous
+        ra = IA.ReadAssignment("read", t, ms)
+        ra.gene_assignment_type = IA.ReadAssignmentType.inconsistent
+        ra.assignment_id = aid
+        ra.genomic_region = (900, 3500)
+        ra.exons = [(1001 + aid, 1200), (1601, 1800 + aid)]
+        ra.corrected_exons = list(ra.exons)
+        ra.polya_info = PolyAInfo(-1, -1, -1, -1)
+        ra.chr_id = chrom
+        ra.strand = "+"
+        ra.mapped_strand = "+"
+        ra.mapping_quality = 60
+        ra.multimapper = sec
+        return ra
+
+    def basic(ra, route):
+        if route == "ctor":
+            return IA.BasicReadAssignment(ra)
+        buf = io.BytesIO()
+        ra.serialize(buf)
+        buf.seek(0)
+        return IA.BasicReadAssignment.deserialize_from_read_assignment(buf)
+    for p1, p2 in itertools.product(PENALTIES, PENALTIES):
+        for sec1, sec2 in ((False, True), (True, False), (True, True)):
+            for nt1, nt2 in ((1, 1), (2, 1), (2, 2)):
+                for route in ("ctor", "stream"):
+                    for order in ((0, 1), (1, 0)):
+                        n += 1
+                        ras = [full(0, "c1", "G1", ["T1", "T2"][:nt1], p1, sec1), full(1, "c2", "G3", ["T4", "T5"][:nt2], p2, sec2)]
+                        try:
+                            objs = [basic(ras[i], route) for i in order]
+                            resolver.resolve(objs)
+                        except Exception as e:  # noqa
+                            bad.append(("l1b:exception", (p1, p2, sec1, sec2, nt1, nt2, route, order), repr(e)))
+                            continue
+                        kept = sorted(o.assignment_id for o in objs if o.assignment_type != IA.ReadAssignmentType.suspended)
+                        # reference: a primary inconsistent alignment is preferred; otherwise the lowest penalty wins, equal penalties tie
+                        prim = [i for i, sec in enumerate((sec1, sec2)) if not sec]
+                        if prim:
+                            exp = prim
+                        else:
+                            best = min(p1, p2)
+                            exp = [i for i, p in enumerate((p1, p2)) if p == best]
+                        if kept != exp:
+                            bad.append(("l1b:penalty-ignored" if len(kept) > len(exp) else "l1b:priority",
+                                        (p1, p2, sec1, sec2, nt1, nt2, route, order),
+                                        "two inconsistent alignments with penalties %s / %s (%s, records made by %s): kept %s, the lower penalty "
+                                        "keeps %s" % (p1, p2, "both secondary" if not prim else "one primary", route, kept, exp)))
+    return n, bad[:20]
+
+
 # ------------------------------------------------------------------------------------------------ L2 pipeline
 LOCUS_TYPES = ("fsm", "ism_amb", "incons", "intergenic")
 
 
-def l2_world_same_chr(assign):
-    """both alignments of the read on ONE chromosome: locus 1 at 1000 (gene GA), locus 2 at 5500 (gene GB or nothing)"""
+def l2_world_same_chr(assign, same_locus=False):
+    """both alignments of the read on ONE chromosome: locus 1 at 1000 (gene GA), locus 2 at 5500 (gene GB or nothing);
+       same_locus: both at locus 1, the second one 20 bases shorter at either end (two placements of the read on one gene)"""
     from vlib import worlds as W, syn
     w = {"chroms": {"chrA": 12000, "chrB": 6000}, "genes": [], "reads": [], "sites": []}
     w["genes"].append(W.locus_gene("GchrA", "chrA", "+", 1000, {"TchrA1": [0, 1, 2, 3], "TchrA2": [0, 1, 3], "TchrA3": [1, 2, 3]}))
@@ -210,7 +281,7 @@ def l2_world_same_chr(assign):
     w["genes"].append(W.locus_gene("GchrB", "chrB", "+", 1000, {"TchrB1": [0, 1, 2]}))
     syn.plant_for_transcripts(w)
     blocks = []
-    for (lt, flag), base in zip(assign, (1000, 5500)):
+    for k_, ((lt, flag), base) in enumerate(zip(assign, (1000, 5500) if not same_locus else (1000, 1000))):
         if lt == "fsm":
             b = W.exons(base, [0, 1, 2, 3])
         elif lt == "ism_amb":
@@ -222,6 +293,10 @@ def l2_world_same_chr(assign):
             b = [e[0], [e[1][0], e[2][1]], e[3]]           # intron between slots 1 and 2 retained: inconsistent with every isoform
         else:
             b = W.exons(9000, [0, 1]) if base == 5500 else W.exons(3800, [0, 1])
+        if same_locus and k_ == 1:
+            b = [list(x) for x in b]
+            b[0][0] += 20
+            b[-1][1] -= 20
         blocks.append(b)
         W.add_sites_for_blocks(w, "chrA", W.exons(base, [0, 2, 3]), "+")
     W.add_sites_for_blocks(w, "chrA", W.exons(9000, [0, 1]), "+")
@@ -301,10 +376,10 @@ def l2_case(args):
     results = {}
     errs = []
     nruns = 0
-    same_chr = (tag.startswith("same_") or tag.startswith("same3_"))
+    same_chr = (tag.startswith("same_") or tag.startswith("same3_") or tag.startswith("sameloc_"))
     for lengths in (itertools.permutations(range(n)) if not same_chr else [(0, 1)]):
         for mode in (("default", "high_memory", "reused-folder") if tag.startswith("same3_") and "_mq0_" not in tag else ("default", "high_memory")):
-            w, names = l2_world(assign, lengths) if not same_chr else l2_world_same_chr(assign)
+            w, names = l2_world(assign, lengths) if not same_chr else l2_world_same_chr(assign, tag.startswith("sameloc_"))
             if "_mq0_" in tag:
                 # what aligners write for a read with equally good placements: MAPQ 0 on every record, the primary one included
                 for r in w["reads"]:
@@ -368,7 +443,8 @@ def l2_case(args):
                     v0 = float(t0.get(f, [["0"]])[0][0])
                     contrib += v1 - v0
                 if contrib > 1.0 + 1e-6:
-                    errs.append(("weight-above-one:" + ("tied-loci" if len(kept) > 1 else "single-locus"),
+                    errs.append(("weight-above-one:" + ("tied-loci" if len(kept) > 1 else
+                                                        ("same-gene-placements" if tag.startswith("sameloc_") else "single-locus")),
                                  "%s %s: the multi-mapped read adds %.2f to %s (loci kept: %s)" %
                                  (lengths, mode, contrib, table, kept)))
             # transcript_model_reads must not mention suspended loci: read listed at most once per kept locus
@@ -407,6 +483,11 @@ def run(ctx):
             ctx.violation("l1:%s:%s" % (kind, types), "records %s permutation %s: %s" % ([(recs[i]["chr"], recs[i]["type"], "sec" if recs[i]["secondary"] else "prim") for i in ms], perm, msg),
                           {"records": [recs[i] for i in ms], "perm": perm})
     ctx.note("L1 executions (list x permutation): %d" % total)
+    for n1b, bad in core.pmap(l1b_all, [0]):
+        total += n1b
+        for kind, case_, msg in bad:
+            ctx.violation(kind, "%s: %s" % (case_, msg), {"l1b": list(case_[:6]) + [case_[6], list(case_[7])]})
+        ctx.note("L1b (records made from full assignments by both routes): %d resolutions" % n1b)
     # L2
     jobs = []
     pairs = list(itertools.product(LOCUS_TYPES, "ps"))
@@ -428,6 +509,12 @@ def run(ctx):
             if quick and not (a[1] == "p" and b[1] == "s"):
                 continue
             jobs.append(((a, b), ctx.scratch, "same_%s%s_%s%s" % (a[0], a[1], b[0], b[1])))
+    # two placements of the read on ONE gene (the second one 20 bases shorter at either end)
+    for a in itertools.product(("fsm", "ism_amb", "incons", "ir"), "ps"):
+        for b in itertools.product(("fsm", "ism_amb", "incons", "ir"), "ps"):
+            if a[1] == "p" and b[1] == "p":
+                continue
+            jobs.append(((a, b), ctx.scratch, "sameloc_%s%s_%s%s" % (a[0], a[1], b[0], b[1])))
     # three alignments, two of them on one chromosome (the losers / tied ones share a chromosome)
     third = [("fsm", "p"), ("fsm", "s"), ("ir", "p"), ("intergenic", "p")]
     pairs3 = list(itertools.product(("fsm", "ism_amb", "ir", "intergenic"), "ps"))
